@@ -520,17 +520,30 @@ Section Proofs.
   Lemma to_nat_level (d : nat) : Z.to_nat (Z.max (Z.of_nat d) 0) = d.
   Proof. lia. Qed.
 
-  Definition text_step (w : nat) (st : fstate) (line : list vtok) : fstate :=
+  (* one line of a multi-line value, as a function of the formatter state alone (the second component of
+     [pv_line] only tracks the next free field index and does not influence the stream) *)
+  Definition text_step (w : nat) (field : N) (st : fstate) (line : list vtok) : fstate :=
     let st := map_out (fun os => os_push_newline (oc_fmt c) os (Some None)) st in
     let st := match io_before_text o with [] => st | b => push_raw b st end in
-    let st := push_tokens c line st in
+    let st := push_tokens c line (mkFs (fs_out st) field) in
     match io_after_text o with
     | [] => st
     | a => push_raw a (push_raw (repeat_str [c_space] (w - value_length line)) st)
     end.
 
-  Lemma text_step_spec w d st line : toks_nocrlf line = true -> lvl st = Z.of_nat d ->
-    appends st (text_step w st line) (nlb f ++ text_line c o d w line).
+  Lemma pv_line_fst w field st nf line : fst (pv_line c o w field (st, nf) line) = text_step w field st line.
+  Proof. unfold pv_line, text_step. cbv zeta. destruct (io_after_text o); reflexivity. Qed.
+
+  Lemma pv_fold_fst w field : forall lines st nf,
+    fst (fold_left (pv_line c o w field) lines (st, nf)) = fold_left (text_step w field) lines st.
+  Proof.
+    induction lines as [|l ls IH]; intros st nf; [reflexivity|].
+    cbn [fold_left]. destruct (pv_line c o w field (st, nf) l) as [st1 nf1] eqn:E.
+    rewrite IH. f_equal. rewrite <- (pv_line_fst w field st nf l), E. reflexivity.
+  Qed.
+
+  Lemma text_step_spec w field d st line : toks_nocrlf line = true -> lvl st = Z.of_nat d ->
+    appends st (text_step w field st line) (nlb f ++ text_line c o d w line).
   Proof.
     intros Hline HL. unfold text_step. cbv zeta.
     destruct (newline_spec c st) as [NV NL].
@@ -543,23 +556,25 @@ Section Proofs.
     assert (A3 : appends st2 st3 (io_before_text o)).
     { unfold st3. destruct (io_before_text o); [apply appends_refl|apply appends_push_raw]. }
     eapply appends_trans; [exact A3|].
+    assert (A4 : appends st3 (mkFs (fs_out st3) field) []) by (split; [unfold val; cbn [fs_out]; rewrite app_nil_r; reflexivity|reflexivity]).
+    eapply appends_eq; [|eapply appends_trans; [exact A4|]]; [reflexivity|].
     eapply appends_trans; [apply appends_push_tokens, Hline|].
     destruct (io_after_text o) as [|a0 ar]; [apply appends_refl|].
     eapply appends_trans; apply appends_push_raw.
   Qed.
 
-  Lemma text_block_spec lines w st (d : nat) :
+  Lemma text_block_spec lines w field st (d : nat) :
     Forall (fun l => toks_nocrlf l = true) lines -> lvl st = Z.of_nat d ->
     appends st
-      (map_out (fun os => os_add_level os (-1)) (fold_left (text_step w) lines (map_out (fun os => os_add_level os 1) st)))
+      (map_out (fun os => os_add_level os (-1)) (fold_left (text_step w field) lines (map_out (fun os => os_add_level os 1) st)))
       (emit (map (text_line c o (S d) w) lines)).
   Proof.
     intros Hl HL. set (st1 := map_out (fun os => os_add_level os 1) st).
     assert (L1 : lvl st1 = Z.of_nat (S d)).
     { unfold st1, lvl, map_out. cbn [fs_out]. rewrite level_add_level. fold (lvl st). lia. }
-    assert (F : appends st1 (fold_left (text_step w) lines st1)
+    assert (F : appends st1 (fold_left (text_step w field) lines st1)
                         (concat (map (fun line => nlb f ++ text_line c o (S d) w line) lines))).
-    { apply (appends_fold_lvl (Z.of_nat (S d)) (text_step w) _ (fun l => toks_nocrlf l = true)); [|exact Hl|exact L1].
+    { apply (appends_fold_lvl (Z.of_nat (S d)) (text_step w field) _ (fun l => toks_nocrlf l = true)); [|exact Hl|exact L1].
       intros st' line Hline HL'. apply text_step_spec; assumption. }
     destruct F as [FV FL]. split.
     - unfold val, map_out in *. cbn [fs_out] in *. rewrite value_add_level, FV.
@@ -568,8 +583,9 @@ Section Proofs.
       rewrite level_add_level. lia.
   Qed.
 
-  Lemma push_value_eq node st :
-    push_value c o node st =
+  (* the stream written by push_value: the multi-line branch as a fold of [text_step] (the field counter the
+     model threads beside it is set at the end and does not touch the stream) *)
+  Definition pv_stream (node : anode) (st : fstate) : fstate :=
     if no_value_part node then st
     else let value := value_or_caret (an_value node) in
          let lines := split_by_lines value in
@@ -577,27 +593,49 @@ Section Proofs.
          | [_] => push_tokens c value
                     (if truthy_s (an_name node) || truthy_l (an_attrs node) then push_raw [c_space] st else st)
          | _ => map_out (fun os => os_add_level os (-1))
-                      (fold_left (text_step (fold_left Nat.max (map value_length lines) O)) lines
+                      (fold_left (text_step (fold_left Nat.max (map value_length lines) O) (fs_field st)) lines
                                  (map_out (fun os => os_add_level os 1) st))
          end.
-  Proof. reflexivity. Qed.
+
+  Lemma push_value_out node st : fs_out (push_value c o node st) = fs_out (pv_stream node st).
+  Proof.
+    unfold push_value, pv_stream.
+    change (negb (truthy_l (an_value node)) && match an_children node with [] => false | _ => true end)
+      with (no_value_part node).
+    destruct (no_value_part node); [reflexivity|].
+    change (match an_value node with Some ((_ :: _) as v) => v | _ => caret end) with (value_or_caret (an_value node)).
+    cbv zeta.
+    destruct (split_by_lines (value_or_caret (an_value node))) as [|l1 [|l2 ls]].
+    - reflexivity.
+    - reflexivity.
+    - set (w := fold_left Nat.max (map value_length (l1 :: l2 :: ls)) O).
+      set (st1 := map_out (fun os => os_add_level os 1) st).
+      change (fs_field st1) with (fs_field st).
+      pose proof (pv_fold_fst w (fs_field st) (l1 :: l2 :: ls) st1 (fs_field st)) as E.
+      destruct (fold_left (pv_line c o w (fs_field st)) (l1 :: l2 :: ls) (st1, fs_field st)) as [stf nff].
+      cbn [fst] in E. rewrite <- E. reflexivity.
+  Qed.
+
+  Lemma appends_same_out st a b s0 : fs_out a = fs_out b -> appends st b s0 -> appends st a s0.
+  Proof. unfold appends, val, lvl. intros ->. exact (fun H => H). Qed.
 
   Lemma push_value_spec node st (d : nat) :
     is_self_closed node = false ->
     lvl st = Z.of_nat d ->
     appends st (push_value c o node st) (inline_value o node ++ emit (text_lines c o (S d) node)).
   Proof.
-    intros Hs HL. rewrite push_value_eq. unfold inline_value, text_lines. rewrite Hs. cbn [orb].
+    intros Hs HL. apply (appends_same_out _ _ (pv_stream node st)); [apply push_value_out|].
+    unfold pv_stream, inline_value, text_lines. rewrite Hs. cbn [orb].
     destruct (no_value_part node); [apply appends_refl|]. cbv zeta.
     set (value := value_or_caret (an_value node)) in *.
     pose proof (split_by_lines_pieces value) as Hp.
     destruct (split_by_lines value) as [|l1 [|l2 ls]] eqn:E.
-    - apply (text_block_spec [] _ st d); [constructor|exact HL].
+    - apply (text_block_spec [] _ _ st d); [constructor|exact HL].
     - destruct (split_by_lines_one value l1 E) as [Hsingle ->].
       unfold emit. cbn [map concat]. rewrite app_nil_r.
       eapply appends_trans; [|apply appends_push_tokens_single, Hsingle].
       destruct (truthy_s (an_name node) || truthy_l (an_attrs node)); [apply appends_push_raw|apply appends_refl].
-    - apply (text_block_spec (l1 :: l2 :: ls) _ st d); [exact Hp|exact HL].
+    - apply (text_block_spec (l1 :: l2 :: ls) _ _ st d); [exact Hp|exact HL].
   Qed.
 
   (* ---------------------------------------------------------------- one element *)
